@@ -86,6 +86,15 @@ func opsClassify(p opsPoint, s, g opsOutcome) []opsFinding {
 func runOps(prop, tier, replay string) {
 	run := ev.Start(prop, tier, "model_checking")
 	if replay != "" {
+		var shp shapeReplay
+		if prop == "C02" && loadReplay(replay, &shp) == nil && shp.Shape.Tree != nil && shp.Var != "" {
+			shapeCheck(run, []prPoint{shp.Shape}, shp.Var)
+			run.Set("states", 1)
+			run.Set("transitions", 1)
+			run.Set("traces_validated_against_impl", 1)
+			run.Sample(shp.Shape.Tree.shape())
+			run.Finish()
+		}
 		var bp biPoint
 		if loadReplay(replay, &bp) == nil && bp.Pt.Fn != "" {
 			biCheck(run, []biPoint{bp}, prop)
@@ -165,6 +174,10 @@ func runOps(prop, tier, replay string) {
 		biRun(run, prop)
 		run.Finish()
 	}
+	if os.Getenv("VERIF_ONLY") == "shapes" { // development aid: only the expression-shape engine
+		shapeRun(run, tier)
+		run.Finish()
+	}
 	if os.Getenv("VERIF_ONLY") == "lits" { // development aid: only the literal engine
 		litRun(run, tier, prop)
 		run.Finish()
@@ -220,6 +233,8 @@ func runOps(prop, tier, replay string) {
 		run.Set("flow_bodies_compared", n3)
 		st4, tr4, n4 := hdrRun(run, tier) // expressions in statement headers (Headers.tla)
 		states, transitions, points = states+st4, transitions+tr4, points+n4
+		st8, tr8, n8 := shapeRun(run, tier) // expression shapes: precedence and associativity reproduced (Print.tla trees on the operand stack)
+		states, transitions, points = states+st8, transitions+tr8, points+n8
 	}
 	run.Set("statement_points", pts2)
 	run.Set("states", states)
